@@ -96,7 +96,7 @@ CLAIMS = {
     ),
     'C15': (
         'The part that is logic is proved, the part that lives in the interpreter is exercised. Lean 4 theorems: the history machine of Bridge/History.lean (any number of rule, layer-rule and diagram-rule objects applied to any number of architectures in any interleaving): history_archs_unchanged, history_outcome_fresh (the outcome of an application after ANY history equals its outcome in the initial world, message text included), history_perm, history_final; report_reapply / reapply (a rule object applied before behaves like a fresh one, text included; convertAliases_idem), report_congr / report_perm_* (verdict and literal message lines invariant under permuting subjects, objects, modules, imports, layers, layer-rule filters), scan_graph_perm / scan_report_perm / perm_dir_entries (directory enumeration order), perm_patterns, perm_layers (no hypothesis since the repair of F-C15a), run_report_perm / run_layer_report_perm (through the builders), applyAll_perm, diagram_lines_perm / diagram_text_perm / diagram_message_lines_perm (diagram line order; diagram_message_order_counterexample: only the multiset of lines is invariant). Tie to /repo on every run: correspondence run (real code vs compiled Lean model vs Lean specification on generated inputs, exhaustive where stated in the evidence): histories of up to 40 evaluations on a shared evaluable with snapshots before/after, re-used rule objects across architectures, permutations of every list-valued argument, shuffled Path.iterdir / os.listdir / os.scandir (also under a level limit), 8 interpreters with PYTHONHASHSEED 0..7.',
-        "Partial by nature: mutation of the Python objects behind the model's values (frozen networkx graph, caches) and the hash seed are outside a pure model and are observed by the snapshot and 8-seed runs only; builder calls interleaved with applications on one object are not part of the history machine. Trusted: Lean kernel, harness/driver.",
+        "Partial by nature: mutation of the Python objects behind the model's values (frozen networkx graph, caches) and the hash seed are outside a pure model and are observed by the snapshot and 8-seed runs only; builder calls interleaved with applications on one Rule object are treated separately (Props/C15Build.lean): 'applications are transparent' is refuted on the model and on the code (open finding F-C15c, printed as KNOWN-FINDING) and proved under the side condition syncAtUnsafe (applications_transparent_sync). Trusted: Lean kernel, harness/driver.",
         TECH,
         '6/C15',
     ),
